@@ -74,8 +74,12 @@ class Counting(desper.Handle):
 
 def decode_op(t):
     sel, p = t
-    kind = ('access', 'access', 'access', 'access', 'access', 'access', 'clear', 'clear', 'snapshot', 'switch')[
-        sel % 10]
+    kind = ('access', 'access', 'access', 'access', 'access', 'access', 'clear', 'clear', 'snapshot', 'switch',
+            'replace', 'orphan')[sel % 12]
+    if kind == 'replace':
+        return ['replace', p % 6]
+    if kind == 'orphan':
+        return ['orphan', p % 8]
     if kind == 'access':
         return ['access', p % 12, p // 12 % 8, p // 96 % 4]     # handle selectors >= 7: the handle touched last
     if kind == 'clear':
@@ -86,7 +90,7 @@ def decode_op(t):
 
 
 def strategy():
-    op = st.tuples(st.integers(0, 9), st.integers(0, 12 * 8 * 4 - 1)).map(decode_op)
+    op = st.tuples(st.integers(0, 11), st.integers(0, 12 * 8 * 4 - 1)).map(decode_op)
     return st.fixed_dictionaries({
         'kinds': st.lists(st.integers(0, len(KINDS) - 1), min_size=5, max_size=5),
         'ops': worldops.chunked(op, 40)})
@@ -128,6 +132,7 @@ class Run:
         lay.handles.maps[0]['hk'] = shadow
         self.snapshot = None
         self.last = 0
+        self.orphans = []
         self.loop = desper.SimpleLoop(lambda: 0)
 
     def viol(self, clause, **d):
@@ -141,15 +146,15 @@ class Run:
             self.m_loads[ix] += 1
             self.m_cached[ix] = True
             if self.loads[ix] != self.m_loads[ix]:
-                self.viol('load_did_not_run_exactly_once_on_first_access', handle=LAYOUT[ix][0], how=how,
+                self.viol('load_did_not_run_exactly_once_on_first_access', handle=self.name(ix), how=how,
                           loads=self.loads[ix], expected=self.m_loads[ix], value=self.kind_name[ix])
             self.m_obj[ix] = self.last_loaded[ix]
             self.accesses_since[ix] = 0
         if self.loads[ix] != self.m_loads[ix]:
-            self.viol('load_ran_again_although_cached', handle=LAYOUT[ix][0], how=how, loads=self.loads[ix],
+            self.viol('load_ran_again_although_cached', handle=self.name(ix), how=how, loads=self.loads[ix],
                       expected=self.m_loads[ix], value=self.kind_name[ix])
         if got is not self.m_obj[ix]:
-            self.viol('access_returned_a_different_object', handle=LAYOUT[ix][0], how=how, value=self.kind_name[ix])
+            self.viol('access_returned_a_different_object', handle=self.name(ix), how=how, value=self.kind_name[ix])
         self.accesses_since[ix] += 1
         self.paths_used[ix].add(how)
         if (self.cleared_between[ix] and len(self.paths_used[ix]) >= 2 and self.accesses_since[ix] >= 2
@@ -162,8 +167,58 @@ class Run:
         self.last = sel
         return sel
 
+    def name(self, ix):
+        return LAYOUT[ix][0] if ix < len(LAYOUT) else 'replaced handle #%d' % ix
+
+    def op_replace(self, slot):
+        """assign a NEW handle to the key of a (non-world) handle; the old handle stays in the program's hands
+        (an "orphan"): its cache is its own business - nobody called clear() on it."""
+        ix = slot % 6
+        if LAYOUT[ix][1]:
+            ix = 0
+        old = self.handles[ix]
+        new_ix = len(self.handles)
+        old.ix = new_ix
+        self.handles.append(old)
+        for arr in (self.loads, self.last_loaded, self.m_cached, self.m_obj, self.m_loads, self.accesses_since,
+                    self.cleared_between, self.kind_name):
+            arr.append(arr[ix])
+        self.paths_used.append(set(self.paths_used[ix]))
+        h = Counting(self, ix, old.maker)
+        self.handles[ix] = h
+        self.loads[ix] = self.m_loads[ix] = self.accesses_since[ix] = 0
+        self.last_loaded[ix] = self.m_obj[ix] = None
+        self.m_cached[ix] = self.cleared_between[ix] = False
+        self.paths_used[ix] = set()
+        try:
+            self.root['/'.join(LAYOUT[ix][0])] = h
+        except Exception as exc:
+            self.viol('setitem_raised', exception=repr(exc))
+        self.snapshot = None            # an older snapshot legitimately keeps the old handle
+        self.orphans.append(new_ix)
+        self.flags['handle_replaced_in_the_map'] += 1
+        if self.m_cached[new_ix]:
+            self.flags['cached_handle_replaced_in_the_map'] += 1
+
+    def op_orphan(self, sel):
+        """access a replaced handle directly"""
+        if not self.orphans:
+            return
+        self.access_orphan(self.orphans[sel % len(self.orphans)])
+
+    def access_orphan(self, ix):
+        self.last = ix
+        try:
+            got = self.handles[ix]()
+        except Exception as exc:
+            self.viol('access_raised', handle=self.name(ix), how='call', exception=repr(exc))
+        self.expect_access(ix, got, 'call')
+        self.flags['access_of_replaced_handle'] += 1
+
     def op_access(self, sel, how_ix, enc):
         ix = self.pick(sel)
+        if ix >= len(LAYOUT):
+            return self.access_orphan(ix)
         path, _w = LAYOUT[ix]
         how = ACCESS[how_ix]
         h = self.handles[ix]
@@ -214,6 +269,8 @@ class Run:
 
     def op_clear(self, sel):
         ix = self.pick(sel)
+        if ix >= len(self.handles):
+            ix = 0
         try:
             self.handles[ix].clear()
         except Exception as exc:
@@ -262,10 +319,10 @@ class Run:
             except Exception as exc:
                 self.viol('cached_raised', exception=repr(exc))
             if bool(c) != self.m_cached[ix]:
-                self.viol('cached_flag_differs', handle=LAYOUT[ix][0], got=c, expected=self.m_cached[ix],
+                self.viol('cached_flag_differs', handle=self.name(ix), got=c, expected=self.m_cached[ix],
                           value=self.kind_name[ix])
             if self.loads[ix] != self.m_loads[ix]:
-                self.viol('load_ran_without_an_access', handle=LAYOUT[ix][0], loads=self.loads[ix],
+                self.viol('load_ran_without_an_access', handle=self.name(ix), loads=self.loads[ix],
                           expected=self.m_loads[ix])
 
     def run(self):
